@@ -314,7 +314,7 @@ class Report:
         for sig, (n, what) in self.known_hits.items():
             log("KNOWN-FINDING: property=%s %s (%s; seen %d times this run)" % (self.prop, what, sig, n))
         if self.violations:
-            for p, tag, found in self.violations[:20]:
+            for p, tag, found in self.violations[:3]:
                 log("VIOLATION property=%s replay=%s%s" % (self.prop, p, "" if found else " no-failing-input-found"))
             return 1
         log("OK property=%s tier=%s seed=%d obligations=%d discharged=%d evaluations=%d wall=%.1fs" % (
